@@ -135,8 +135,41 @@ fn strip_functions(src: &str) -> String
 	out
 }
 
+/// deepest bracket nesting of a source (brackets in literals and comments
+/// count too: an over-estimate)
+fn nesting_depth(src: &str) -> usize
+{
+	let (mut d, mut max) = (0usize, 0usize);
+	for b in src.bytes()
+	{
+		match b
+		{
+			b'(' | b'[' | b'{' =>
+			{
+				d += 1;
+				max = max.max(d);
+			}
+			b')' | b']' | b'}' => d = d.saturating_sub(1),
+			_ => (),
+		}
+	}
+	max
+}
+
 fn judge(case: &Case, out: &mut CaseOut, want_sample: bool)
 {
+	// the property is stated for nesting up to 256
+	let depth = case.files.iter().map(|(_, s)| nesting_depth(s)).max().unwrap_or(0);
+	if depth > 256 && case.kind != "deep-nesting"
+	{
+		out.discarded = Some("nesting deeper than the stated bound of 256".into());
+		return;
+	}
+	if depth >= 150 && case.kind != "deep-nesting"
+	{
+		// (the recorded stack overflow of deeply nested ifs applies here too)
+		note_case_class("nesting 150-256 deep");
+	}
 	let o = alpha::compile_modules(
 		&case.files,
 		alpha::Options {
